@@ -237,13 +237,14 @@ POST = [Auto(None)]
 
 HELPERS = {
     "queue_entry_ctor": CtorLift(CVH, r"\bqueue_entry\(pika::execution::detail::agent_ref ctx, void\* q\)"),
-    "rqe_ctor": CtorLift(CVH, r"\breset_queue_entry\(queue_entry& e, queue_type& q\)", rules=[
-        Sub(r"\b(\w+)\.(last|begin)\(\)", r"slist_\2_it(\1)", 1)]),
+    "rqe_ctor": CtorLift(CVH, r"\breset_queue_entry\(queue_entry& \w+, queue_type&(?: \w+)?\)", rules=[
+        Sub(r"\b(\w+)\.(last|begin)\(\)", r"slist_\2_it(\1)", None)]),
     "rqe_dtor": Lift(CVH, r"~reset_queue_entry\(\)", rules=[
         Sub(r"\be_\.", "self->e_->", None),
+        Sub(r"\b(\w+)->(last|begin)\(\)", r"slist_\2_it(\1)", None),
         Call(r"\b(\w+)->erase", "slist_erase({h1}, {0})", None),
         Sub(r"\bqueue_type\b", "struct slist", None),
-        Members(["last_"])]),
+        Members(["last_"], optional=["last_"])]),
 }
 HELPER_FUNCS = [CVH + ": detail::condition_variable::queue_entry::queue_entry, reset_queue_entry::reset_queue_entry, ~reset_queue_entry"]
 
@@ -550,3 +551,16 @@ UNITS += AGENT_UNITS
 for _k in ("trusted_base", "assumptions", "not_decided"):
     META[_k] = list(META.get(_k, [])) + list(AGENT_META.get(_k, []))
 STATIC = list(globals().get("STATIC", [])) + list(AGENT_STATIC)
+
+
+# ---- C14 units reused (added after seeded change C07-5 was missed): the stop-token waits are woken by a stop_callback; that the
+# ---- callback registered by the wait is still on the stop state's list when request_stop runs is a C14 contract (intrusive list
+# ---- add / remove, add_callback, request_stop); same templates, same contracts, run here as well
+_c14 = {"__name__": "c14_reuse"}
+exec(compile(open("/verif/specs/C14/spec.py").read(), "/verif/specs/C14/spec.py", "exec"), _c14)
+for _u in _c14["UNITS"]:
+    if _u.kind != "bounded" and (_u.name.startswith("list.") or _u.name in ("cb.add_callback", "state.request_stop")):
+        _u.name = "c14." + _u.name
+        _u.template = "../C14/" + _u.template
+        UNITS.append(_u)
+META["trusted_base"] = list(META.get("trusted_base", [])) + ["units c14.* are the C14 units of the same name (specs/C14) with their trusted base"]
